@@ -209,7 +209,22 @@ def check_run(at, P, ps, pg, make_ins, label, records, index, rid, V):
         rid += 1
     for ti in active[:: max(1, len(active) // 25)]:
         rec = ob.log[(mid, ti)]
+        # the spending equivalent to the coverage that prevailed is the spending in force wherever that coverage came from spending and is
+        # neither complete nor at the capacity / saturation limit (one-off and continuous programs, any step size)
+        try:
+            eq = res.get_equivalent_alloc(year=float(m.t[ti]))
+        except Exception as ex:
+            eq = None
+            V.violation("C13 equivalent spending report failed", dict(label=label, ti=ti, error="%s: %s" % (type(ex).__name__, str(ex)[:120])))
         for prog, c in rec["cov"].items():
+            pr_ = m.progset.programs[prog]
+            if eq is not None and prog not in ins.coverage and prog not in getattr(ins, "capacity", {}) and 1e-6 < c < 1 - 1e-6 and not pr_.capacity_constraint.has_data and np.isfinite(float(np.ravel(eq[prog])[0])):
+                sat_ok = (not pr_.saturation.has_data) or c < 0.95 * float(pr_.saturation.interpolate(np.array([m.t[ti]]), method="previous")[0])
+                if sat_ok:
+                    records.append(dict(id=rid, kind="close", a=FX.fix(float(np.ravel(eq[prog])[0])), b=FX.fix(float(alloc0[prog][ti]))))
+                    index[rid] = dict(label=label, what="equivalent spending reported for the prevailing coverage vs spending in force", prog=prog, ti=ti, reported=float(np.ravel(eq[prog])[0]), in_force=float(alloc0[prog][ti]),
+                                      one_off=bool(pr_.is_one_off), dt=dt)
+                    rid += 1
             records.append(dict(id=rid, kind="same", a=[FX.fix(min(c, 1.0))], b=[FX.fix(float(frac[prog][ti]))]))
             index[rid] = dict(label=label, what="reported coverage fraction vs coverage in force", prog=prog, ti=ti, in_force=c, reported=float(frac[prog][ti]))
             rid += 1
